@@ -56,4 +56,30 @@ def generate(repo):
     txt = " ".join(show_stmt(s) for s in body)
     ok = "posMapping[(pos + k)] = output->length;" in txt and "(k < inLength)" in txt
     out.append("Definition back_emit_maps_input_positions : bool := %s.\n" % ("true" if ok else "false"))
+    out.append(stage_copy_guards(repo, pr))
+    return "".join(out)
+
+
+def stage_copy_guards(repo, pr):
+    """the plain copy of one element in the four stage loops (case CTO_Always of makeCorrections / translatePass, both
+    directions): the capacity test that precedes the two writes"""
+    import re
+    out = ["\n(* the one-element copy of the stage loops fails (goto failure) without writing when this holds *)\n"]
+    for name, f, fn in (("fwd_correct_copy_rejects", "lou_translateString.c", "makeCorrections"),
+                        ("fwd_pass_copy_rejects", "lou_translateString.c", "translatePass"),
+                        ("back_correct_copy_rejects", "lou_backTranslateString.c", "makeCorrections"),
+                        ("back_pass_copy_rejects", "lou_backTranslateString.c", "translatePass")):
+        src = source(repo, f)
+        body = cparse.find_function(src, fn)
+        body = body if isinstance(body, str) else body[1]
+        flat = " ".join(body.split())
+        m = re.search(r"case CTO_Always: if \(((?:[^()]|\([^()]*\))*)\) goto failure; "
+                      r"posMapping\[(output->length|pos)\] = (pos|output->length); "
+                      r"output->chars\[\(?output->length\)?\+\+\] = input->chars\[pos\+\+\]; break;", flat)
+        if not m:
+            raise cparse.ParseError("%s/%s: one-element copy not recognised" % (f, fn))
+        fwd = f == "lou_translateString.c"
+        if (m.group(2), m.group(3)) != (("output->length", "pos") if fwd else ("pos", "output->length")):
+            raise cparse.ParseError("%s/%s: the copy maps %s to %s" % (f, fn, m.group(2), m.group(3)))
+        out.append("Definition %s (out_len maxlen : Z) : bool := %s.\n" % (name, pr.b(cparse.parse_expr(m.group(1)))))
     return "".join(out)
